@@ -14,6 +14,15 @@ CHECKS = {
              "Outside the property: empty/inverted ranges, relative addresses beyond 32 bits.",
         technique="Coq proof (refinement of a history specification by induction) + differential correspondence run evaluated with vm_compute",
         design="4/C11"),
+    "C12": dict(
+        text="Coq theorems C12_conservation (no underflow/assert, CPU-delta and off-CPU conservation against plain history sums, remainder < I, "
+             "group shape and ordering), C12_group_inside_sleep, C12_no_double_count and C12_checker_accepts_model hold for every interval I > 0 and "
+             "every nondecreasing history (induction, no bound). The model is tied to samply/src/shared/context_switch.rs (compiled into the harness by #[path]) "
+             "by running generated histories and evaluating the verified boolean checker and the model inside Coq on the implementation's outputs.",
+        note="Trusted: Coq kernel; harness h_incl (reads the private accumulators through the Debug rendering); generators. "
+             "Hypotheses: I > 0, nondecreasing timestamps (the property's quantifier). Not covered: the converter constructing the handler with interval 0; per_cpu.rs callers.",
+        technique="Coq proof (invariant + conservation by induction over the event history) + differential correspondence run with a verified checker evaluated by vm_compute",
+        design="4/C12"),
 }
 
 NOT_YET = "check not built yet in this development (planned: see DESIGN.md section 4); no claim is made"
